@@ -108,7 +108,7 @@ def build(targets=None, timeout=3000):
         if rc != 0:
             return False, out
     tg = " ".join(targets) if targets else ""
-    rc, out = sh(f"make -k -j{NPROC} {tg}", cwd=COQ, timeout=timeout)
+    rc, out = sh(f"make -k -j{NPROC} COQC='timeout 1500 coqc' {tg}", cwd=COQ, timeout=timeout)
     out = "\n".join(l for l in out.splitlines() if "conda.cli" not in l)
     return rc == 0, out
 
